@@ -760,10 +760,14 @@ def _soup_expr(r, ctx, depth, ty="int"):
 
 def gen_semsoup(r):
     lines = []
-    if r.random() < 0.3:
-        name = r.choice(["expected_back_ends", "(cpp) namespace", "$default byte_order", "(cpp) $default enum_case", "byte_order", "requires",
-                         "(java) namespace", "text_output", "$default requires", "fixed_size_in_bits"])
-        val = r.choice(['"cpp"', '"cpp, java"', "5", "true", "Ee.AA", '""', '"a b"', '"BigEndian"', '"kCamelCase"', "1 + 1", '"cpp,"', '", cpp"'])
+    # calm: every expression is plain, so the module is valid except (perhaps) for one attribute - the later passes and the
+    # back end are reached
+    calm = r.random() < 0.3
+    if r.random() < (0.9 if calm else 0.3):
+        name = r.choice(["expected_back_ends", "(cpp) namespace", "$default byte_order", "(cpp) $default enum_case", "(cpp) $default enum_case",
+                         "byte_order", "requires", "(java) namespace", "text_output", "$default requires", "fixed_size_in_bits", "(cpp) enum_case"])
+        val = r.choice(['"cpp"', '"cpp, java"', "5", "true", "Ee.AA", '""', '"a b"', '"BigEndian"', '"kCamelCase"', "1 + 1", '"cpp,"', '", cpp"',
+                        '"snake_case"', '"SHOUTY_CASE,"', '"kCamelCase, SHOUTY_CASE"', '"BAD"', '"kCamelCase,,SHOUTY_CASE"'])
         lines.append("[%s: %s]" % (name, val))
     if r.random() < 0.9:
         lines.append('[$default byte_order: "%s"]' % r.choice(["LittleEndian", "BigEndian"]))
@@ -781,6 +785,8 @@ def gen_semsoup(r):
             lines.append("  [requires: %s]" % _soup_expr(r, {"own": tn(order), "later": [], "static": static, "fields": fields}, 2, "bool"))
         off = 0
         spicy = set(r.sample(order, r.choice([1, 1, 2, 2, 3])))
+        if calm:
+            spicy = set()
         for i, n in enumerate(order):
             ctx = {"own": tn(order[:i] + (["p1"] if param else [])), "later": tn(order[i + 1:]), "static": static,
                    "fields": [x for x in order[:i] if x in fields]}
@@ -792,8 +798,9 @@ def gen_semsoup(r):
                 lines.append("  let %s = %s" % (n, e))
                 continue
             if n in spicy:
-                start = str(off) if r.random() < 0.6 else _soup_expr(r, dict(ctx, special=["$next"] if i else ["0"]), 1)
-                size = r.choice(["1", "2", "4", "8"]) if r.random() < 0.5 else _soup_expr(r, ctx, 1)
+                k = r.random()
+                start = str(off) if k < 0.5 else ("$next" if (k < 0.7 and ctx["fields"]) else _soup_expr(r, dict(ctx, special=["$next"] if ctx["fields"] else ["0"]), 1))
+                size = r.choice(["1", "2", "4", "8", "8"]) if r.random() < 0.5 else _soup_expr(r, ctx, 1)
                 other = "Tt" if sname == "Ss" else "Ee"
                 ty = r.choice(["UInt", "UInt", "UInt", "Int", "Ee", "Bcd", "Flag", "UInt:8[]", other, "Float", "UInt:8[%s]" % _soup_expr(r, ctx, 1)])
                 if r.random() < 0.25:
@@ -814,7 +821,7 @@ def gen_semsoup(r):
             lines.append("  [maximum_bits: %s]" % r.choice(["8", "64", "65", "0", "true", "Ee.AA"]))
         vals = ["AA", "BB", "CC"]
         for i, vn in enumerate(vals):
-            if r.random() < 0.75:
+            if calm or r.random() < 0.75:
                 lines.append("  %s = %d" % (vn, i + 1))
             else:
                 ctx = {"own": [(x, "int") for x in vals[:i]], "later": [(x, "int") for x in vals[i + 1:]],
